@@ -4,7 +4,10 @@ The clock advances dt_us before the call and tick_us after every reading during 
 through Datastore(...) and every call is made through Datastore / Bucket (default: the storage object).  The step
 ["reopen", mode, down_us] closes the store (mode "crash": as at process exit; "flush": after a commit), lets down_us pass
 and opens a new store instance on the same file; ["companion", [call, args...]] is a call on a second store (another
-file) alive in the same process.  '{"big": {"layer": .., "n": ..}}' re-runs the large-write run."""
+file) alive in the same process.  '{"big": {"layer": .., "n": ..}}' re-runs the large-write run.
+With "faults": true the store's connection is wrapped (harness/c18_fault.py) and a step ["fault", kind, nth, [call, args...]]
+runs the call with the engine raising once; '{"real_lock": {"layer": ..}}' re-runs the run in which a reader's lock makes the
+store's COMMIT raise 'database is locked' by itself."""
 import json
 import sys
 
@@ -15,7 +18,7 @@ from . import c18_lib as lib18
 def main():
     arg = sys.argv[1]
     case = json.load(open(arg)) if not arg.lstrip().startswith("{") else json.loads(arg)
-    while "history" not in case and "big" not in case and "replay" in case:
+    while "history" not in case and "big" not in case and "real_lock" not in case and "replay" in case:
         case = case["replay"]
     if "history" in case:
         case = case["history"]
@@ -29,9 +32,25 @@ def main():
         if not v:
             print("oracle: ok")
         return 1 if v else 0
+    if "real_lock" in case:
+        from . import c18_fault
+        v, info = c18_fault.real_lock_run(sq, Event, case["real_lock"].get("layer", "storage"))
+        print("real-lock run:", info)
+        for sig, d in v:
+            print("VIOLATES", sig, "-", d)
+        if not v:
+            print("oracle: ok")
+        return 1 if v else 0
     layer = case.get("layer", "storage")
-    s = lib18.run_session(sq, Event, case["lazy"], case["steps"], layer)
-    v = lib18.c18_violations(s)
+    if case.get("faults"):
+        # steps may contain ["fault", kind, nth, [call, args...]]: the call runs with the engine raising once
+        # (kind "commit": its nth conn.commit(); "execute": its nth write statement; "executemany": after nth rows)
+        from . import c18_fault
+        s = c18_fault.run_fault_session(sq, Event, case["lazy"], case["steps"], layer)
+        v = c18_fault.session_violations(s)
+    else:
+        s = lib18.run_session(sq, Event, case["lazy"], case["steps"], layer)
+        v = lib18.c18_violations(s)
     for r in s.segments:
         print(f"store instance #{r.index} ({layer} layer) opened at t={r.t0 / 1e6:.6f}s on {'the existing' if r.existing else 'a new'} file: "
               f"{len(r.steps)} calls, {len(r.rec.issue_time)} write statements, {len(r.rec.obs)} crash points observed")
